@@ -165,6 +165,10 @@ Proof. split; vm_compute; reflexivity. Qed.
 Theorem C09_source_refines_model : Proofs.SrcCborP.cbor_source_refinement.
 Proof. exact Proofs.SrcCborP.cbor_source_refines_model. Qed.
 
+(* the translation evaluates: the source's own answers on concrete inputs (vm_compute) *)
+Example C09_source_ex : Gen.CborSrc.AppendInt [] (-9223372036854775808)%Z = GoSem.Ok [59;127;255;255;255;255;255;255;255] /\ Gen.CborSrc.AppendString [] [1;2;3] = GoSem.Ok [99;1;2;3].
+Proof. vm_compute. split; reflexivity. Qed.
+
 Print Assumptions C09_parser_sound.
 Print Assumptions C09_parser_complete.
 Print Assumptions C09_decoding_unique.
